@@ -614,21 +614,37 @@ func wgEvaluate(in wgInput, o wgOpts) *wgResult {
 		}
 	}
 
+	// every library call runs under recover: a panic is a finding of its own (aspect "panic", relevant to every property
+	// that observes Build), recorded with the model like any other finding
+	safeBuild := func(label string, b *graph.WeightedAuthorizationModelGraphBuilder, pm *openfgav1.AuthorizationModel) (wg *graph.WeightedAuthorizationModelGraph, err error, ok bool) {
+		defer func() {
+			if r := recover(); r != nil {
+				add("panic", fmt.Sprintf("%s: Build panicked: %v", label, r))
+				wg, err, ok = nil, nil, false
+			}
+		}()
+		wg, err = b.Build(pm)
+		return wg, err, true
+	}
 	for i := 0; i < o.RealBuilds; i++ {
-		wg, err := graph.NewWeightedAuthorizationModelGraphBuilder().Build(pm)
-		checkBuild(fmt.Sprintf("Build#%d", i), wg, err)
+		label := fmt.Sprintf("Build#%d", i)
+		if wg, err, ok := safeBuild(label, graph.NewWeightedAuthorizationModelGraphBuilder(), pm); ok {
+			checkBuild(label, wg, err)
+		}
 	}
 	if in.Prior != nil {
 		b := graph.NewWeightedAuthorizationModelGraphBuilder()
-		_, _ = b.Build(in.Prior.Proto())
-		wg, err := b.Build(pm)
-		checkBuild("Build(with a builder that built another model before)", wg, err)
+		_, _, _ = safeBuild("Build(prior model)", b, in.Prior.Proto())
+		if wg, err, ok := safeBuild("Build(with a builder that built another model before)", b, pm); ok {
+			checkBuild("Build(with a builder that built another model before)", wg, err)
+		}
 		if in.Shared {
 			sb := graph.NewWeightedAuthorizationModelGraphBuilder()
 			ppm := in.Prior.Proto()
 			type out struct {
 				wg  *graph.WeightedAuthorizationModelGraph
 				err error
+				pan string
 			}
 			outs := make([]out, 4)
 			var wgrp sync.WaitGroup
@@ -636,6 +652,11 @@ func wgEvaluate(in wgInput, o wgOpts) *wgResult {
 				wgrp.Add(1)
 				go func(i int) {
 					defer wgrp.Done()
+					defer func() {
+						if r := recover(); r != nil {
+							outs[i].pan = fmt.Sprint(r)
+						}
+					}()
 					for k := 0; k < 3; k++ {
 						if i%2 == 0 {
 							outs[i].wg, outs[i].err = sb.Build(pm)
@@ -646,8 +667,12 @@ func wgEvaluate(in wgInput, o wgOpts) *wgResult {
 				}(i)
 			}
 			wgrp.Wait()
-			for i := 0; i < len(outs); i += 2 {
-				checkBuild(fmt.Sprintf("Build(one builder value shared by 4 goroutines, goroutine %d)", i), outs[i].wg, outs[i].err)
+			for i := range outs {
+				if outs[i].pan != "" {
+					add("panic", fmt.Sprintf("Build(one builder value shared by 4 goroutines, goroutine %d) panicked: %s", i, outs[i].pan))
+				} else if i%2 == 0 {
+					checkBuild(fmt.Sprintf("Build(one builder value shared by 4 goroutines, goroutine %d)", i), outs[i].wg, outs[i].err)
+				}
 			}
 		}
 	}
